@@ -402,6 +402,7 @@ def rule_json_envelope(ctx, rep):
     args = Obj(w.cls("tealer.exceptions", "TealerException"))
     args.fields["json"] = "out.json"
     w.files = {}
+    w.dirs = set()
     ep = w.new(EP, teal, det, [[B["P"]]])
     try:
         w.call(handle, args, [[ep]], teal, None)
@@ -473,6 +474,7 @@ def rule_main_detect(ctx, rep):
         saved_an = pf.values["_apply_transaction_context_analysis"]
         pf.values["_apply_transaction_context_analysis"] = ("builtin", "noop")
         w.files = {"c.teal": src}
+        w.dirs = set()
         w.stdout = []
         try:
             try:
@@ -649,6 +651,7 @@ def _run_main(ctx, w, fields, files):
     real = pf.lookup("_apply_transaction_context_analysis")
     pf.values["_apply_transaction_context_analysis"] = ("builtin", "noop")
     w.files = dict(files)
+    w.dirs = set()          # a fresh working directory: nothing the tool has not created itself exists
     w.stdout = []
     err = None
     try:
@@ -832,6 +835,17 @@ def rule_main_selection(ctx, rep):
         rep.check(isinstance(js, dict) and js.get("success") is False and js.get("error"), rule, name, where,
                   js if not isinstance(js, dict) else {"success": js.get("success"), "error": js.get("error")}, "success=false with the tool's error message",
                   why="a wrong detector selection ends with an internal error or is silently accepted")
+    # --json <file>: the report is written to that file (in the contract's export directory, which the tool has to create)
+    err, out = _run_main(ctx, w, {"subcommand": "detect", "contracts": ["c.teal"], "json": "report.json", "detectors_to_run": "rekey-to"}, {"c.teal": src})
+    written = [k for k in w.files if k.endswith("report.json")]
+    okj = False
+    if err is None and len(written) == 1:
+        try:
+            okj = json.loads(w.files[written[0]]).get("success") is True
+        except ValueError:
+            okj = False
+    rep.check(okj, rule, "--json <file> writes the report", where, {"error": err, "files": sorted(k for k in w.files if k != "c.teal")[:4]}, "report.json with success=true",
+              why="the JSON report cannot be written to a file")
     # contradictory / incomplete options: the tool prints a message and exits
     bad = {"no subcommand": {"subcommand": None}, "detect without a contract": {"subcommand": "detect", "contracts": None, "group_config": None},
            "detect with a contract and a group configuration": {"subcommand": "detect", "contracts": ["c.teal"], "group_config": "g.yaml"},
